@@ -10,11 +10,12 @@ from ..publicops import REDUCTIONS, ROW_OPS, SELECT_OPS, approx_equal, run_op
 
 PID = "C13"
 MODULES = ["GroupbyVerif.Props.C13"]
-RULE = ("seeded random operation histories (length <= 12 quick / <= 40 thorough) on ONE GroupBy object for each initial key representation {contiguous, "
+RULE = ("a pairwise table {8 first steps that change or keep the key representation} x {4 reductions} x {no mask, boolean window, slice with positive / negative "
+        "start, positions} on localized-group keys for both chunked representations, plus seeded random operation histories (length <= 12 quick / <= 40 thorough) on ONE GroupBy object for each initial key representation {contiguous, "
         "chunk-factorized with per-chunk dictionaries (threshold scaled to 8 rows), pre-chunked arrow, fully monotonic}; operations drawn from all public "
         "methods (11 reductions with and without transform, cumulative, rolling, shift/diff, EMA plain/timed, head/tail/nth, groups, copy-construction, "
         "class-level call) with fresh random values and masks (none / boolean / slice / positions) at every step; every output is compared with the same "
-        "call on a freshly built object; labels and ngroups are re-checked after every step; non-trivial = history with >= 3 steps incl. >= 1 "
+        "call on a freshly built object; labels and ngroups are re-checked after every step; non-trivial = history with >= 2 steps incl. >= 1 "
         "representation-changing op; distinct = distinct (keys, history)")
 ASSUMPTIONS = ["float results compared to 1e-9 relative"]
 ALL_OPS = REDUCTIONS + ["T:" + r for r in ("size", "count", "sum", "mean", "min", "max", "first", "last", "median")] + ROW_OPS + SELECT_OPS + ["groups", "copy", "classlevel"]
@@ -38,15 +39,50 @@ def fix_case(c):
 def gen_cases(tier, rng):
     for c in common.load_corpus(PID):
         yield fix_case(c)
+    # pairwise table: every representation-changing first step followed by every reduction x mask kind, on keys whose
+    # groups sit in stretches of rows (so that windows cut whole groups away), for the two chunked representations
+    first_steps = ["median", "groups", "T:sum", "cumsum", "head", "ema", "sum", "copy"]
+    for rep in range(2 if tier == "quick" else 12):
+        L = rng.randint(10, 24)
+        nlab = rng.randint(3, 5)
+        base = sorted(rng.randrange(nlab) for _ in range(L))
+        base = base[L // 3:] + base[:L // 3]            # rotate: a label can sit at both ends
+        if rng.random() < 0.3:
+            base[rng.randrange(L)] = None
+        for repr_ in ("small", "arrowchunks"):
+            cls = rng.choice(["float", "str"]) if None in base else rng.choice(["int", "float", "str"])
+            for a in first_steps:
+                for b in ("sum", "min", "count", "last"):
+                    for mk in ("none", "b", "s+", "s-", "p"):
+                        def step(op, mk_):
+                            vals = [None if rng.random() < 0.15 else rng.choice([-3, 1, 2, 7]) for _ in range(L)]
+                            mask = None
+                            if mk_ == "b":
+                                lo = rng.randint(0, L - 2)
+                                mask = ("b", [lo <= i < lo + L // 2 for i in range(L)])
+                            elif mk_ == "s+":
+                                st = rng.randint(1, L - 2)
+                                mask = ("s", st, rng.choice([None, min(L, st + L // 2)]))
+                            elif mk_ == "s-":
+                                mask = ("s", -rng.randint(1, L - 1), rng.choice([None, -1]))
+                            elif mk_ == "p":
+                                mask = ("p", [rng.randrange(-L, L) for _ in range(rng.randint(1, L // 2))])
+                            return dict(op=op, vals=vals, mask=mask, window=2, n=1)
+                        yield dict(keys=[list(base)], key_classes=[cls], repr=repr_, sort=rng.random() < 0.8, chunks=[rng.randint(1, L - 1)],
+                                   history=[step(a, "none"), step(b, mk)])
     n = 450 if tier == "quick" else 8000
     maxlen = 12 if tier == "quick" else 40
     for _ in range(n):
         repr_ = rng.choice(["plain", "small", "small", "arrowchunks", "mono"])
         cls = rng.choice(["int", "float", "float", "str", "datetime"])
-        ds = gen_dataset(rng, max_rows=30, max_labels=4, nkeys=1, key_classes=[cls], vdt="f64", mask_kinds=("none",), min_rows=9,
+        ds = gen_dataset(rng, max_rows=30, max_labels=rng.choice([4, 6]), nkeys=1, key_classes=[cls], vdt="f64", mask_kinds=("none",), min_rows=9,
                          p_null_key=rng.choice([0.0, 0.15]))
         keys = ds["keys"][0]
         L = len(keys)
+        if repr_ in ("small", "arrowchunks") and rng.random() < 0.4:
+            # localized groups (each label in one stretch of rows): windows then cut whole groups away
+            keys = sorted(keys, key=lambda k: (k is None, k if k is not None else 0)) if rng.random() < 0.5 else \
+                sorted(keys, key=lambda k: (k is None, -(k if k is not None else 0)))
         if repr_ == "mono":
             keys = sorted(k for k in keys if k is not None)
             keys = keys + [keys[-1] if keys else 0] * (L - len(keys))
@@ -66,7 +102,7 @@ def gen_cases(tier, rng):
             if mk == "b":
                 mask = ("b", [rng.random() < 0.7 for _ in range(L)])
             elif mk == "s":
-                mask = ("s", rng.choice([None, 1, -5]), rng.choice([None, L - 2, -1]))
+                mask = ("s", rng.choice([None, 1, 2, L // 3, L // 2, -5, -(L // 2)]), rng.choice([None, None, L - 2, -1, L // 2 + 2]))
             elif mk == "p":
                 mask = ("p", [rng.randrange(-L, L) for _ in range(rng.randint(1, L))])
             history.append(dict(op=op, vals=vals, mask=mask, window=rng.randint(1, 3), n=rng.choice([-1, 0, 1, 2])))
@@ -89,7 +125,7 @@ def evaluate(case, drv):
     key = repr((case["keys"], cls, case["repr"], case["sort"], case["chunks"], [(h["op"], h["vals"], h["mask"], h["window"], h["n"]) for h in hist]))
     res = dict(tags=[f"repr:{case['repr']}", f"kc:{cls}", f"len:{len(hist)}"] + [f"op:{h['op']}" for h in hist],
                size=len(hist), key=key,
-               nontrivial=len(hist) >= 3 and any((h["op"][2:] if h["op"].startswith("T:") else h["op"]) in REPR_CHANGING or h["op"].startswith("T:") for h in hist),
+               nontrivial=len(hist) >= 2 and any((h["op"][2:] if h["op"].startswith("T:") else h["op"]) in REPR_CHANGING or h["op"].startswith("T:") for h in hist),
                bucket=(case["repr"], cls))
 
     old_thr = core_mod.THRESHOLD_FOR_CHUNKED_FACTORIZE
